@@ -291,6 +291,8 @@ def run_case_files(ctx, files, names=("bad",), timeout=3600):
             head = fh.read(4000)
         for m in re.finditer(r"From Rigo Require Import ([^.]*)\.", head):
             mods.update(m.group(1).split())
+    if "Predicates" in mods:
+        mods.add("PredicatesSound")   # the comparator's soundness proof is re-checked with it
     if mods:
         okm, outm = coq_make(["theories/%s.vo" % m for m in sorted(mods)])
         if not okm:
@@ -381,6 +383,8 @@ TRUSTED_BASE = [
 
 
 def write_evidence(ctx, level, coverage, assumptions, violations=None):
+    if getattr(ctx, "replay", None):
+        return   # a replay run describes one history; the evidence file stays that of the last full run
     cov = dict(ctx.cov)
     cov.update(coverage)
     cov.setdefault("trusted_base", TRUSTED_BASE)
